@@ -59,7 +59,8 @@ NewBindings(e, g) ==
   LET B == ToSet(e.before) A == ToSet(e.after) IN
   {<<f.sha, o.sha>> : f \in {x \in B : IsSrc(x) /\ Under(x, e.dir)}, o \in {y \in A : TRUE}}
     \cap {p \in {<<f.sha, o.sha>> : f \in B, o \in A} :
-            \E f \in B, o \in A : IsSrc(f) /\ Under(f, e.dir) /\ Path(o) = Derived(f) /\ p = <<f.sha, o.sha>>}
+            \E f \in B, o \in A : IsSrc(f) /\ Under(f, e.dir) /\ Path(o) = Derived(f) /\ p = <<f.sha, o.sha>>
+                                  /\ Lookup(g, f.sha) = {}}     \* the FIRST observation binds
 
 Gen == /\ l <= Len(Trace) /\ Trace[l].op = "gen"
        /\ (GoGenOK(Trace[l], gen) \/ RootAsBuilt(Trace[l]) \/ DepAsBuilt(Trace[l]))
